@@ -28,6 +28,7 @@ follows for C20 (`validate` on the reloaded object), C05 (`Loaded`) and C06.
 import ElfioVerif.Lemmas.RoundTrip
 import ElfioVerif.Props.C06
 import ElfioVerif.Props.C20
+import ElfioVerif.Props.C17
 namespace ElfioVerif.Compose
 open ElfioVerif Gen Sv RoundTrip
 
@@ -373,5 +374,74 @@ example :
       ResidentFull b ∧ fileBytesOf b = [9, 8, 7, 6, 5, 4, 3, 2]) ∧
     (∀ g ∈ S.obj.segs[0]?, specMembers S.obj.secs g = [2, 3]) := by
   decide +kernel
+
+/-! ### 4. C17 : the name of a zeroed section of a truncated well-formed image -/
+
+/-- the section-name string table of the image (if there is one and it is not empty) starts with a
+    NUL byte — part of the gABI's definition of a string table ("the first byte, which is index zero,
+    holds a null character"); decidable, specification vocabulary only -/
+def NameTableNul (img : Bytes) : Prop := ∀ T ∈ C02.shstrtab img, T = [] ∨ T.head? = some 0
+
+instance (img : Bytes) : Decidable (NameTableNul img) := by unfold NameTableNul; infer_instance
+
+/-- on a well-formed image the loader's name table holds the specification's table bytes -/
+theorem nameTableNulFirst_of_image (img : Bytes) (o : Obj) (k : StreamKind) (isLazy : Bool) (htr : o.trans = [])
+    (hwf : C02.WellFormedImage img) (hnul : NameTableNul img) :
+    ∃ rf : LoadRes, load o { data := img, kind := k } isLazy = .ok rf ∧ rf.ok = true ∧ C17.NameTableNulFirst rf := by
+  obtain ⟨rf, hload, ⟨hok, lc, le, ⟨h', hh', hhs⟩, _, _, _, lns, _, _, _⟩, _, lst⟩ := load_state img o k isLazy htr hwf
+  refine ⟨rf, hload, hok, ?_⟩
+  intro hdr T hh hne hT d hd hsz
+  rw [hh'] at hh
+  have ehdr : hdr = h' := (Option.some.inj hh).symm
+  subst ehdr
+  rw [lc, le] at hne hT
+  have hndx : (Hdr.e_shstrndx (C02.clsOf img) (C02.encOf img) hdr).toNat = C02.eh img "e_shstrndx" := hhs.2.2.2.2.2.2.2.2.2.2.2.2.2
+  rw [hndx] at hne hT
+  have hi := getElem?_lt hT
+  have e2 : rf.obj.secs[C02.eh img "e_shstrndx"] = T := by
+    have := List.getElem?_eq_getElem hi
+    rw [hT] at this; exact (Option.some.inj this).symm
+  have hv := (lst _ hi).2.1 (Or.inr (by rw [e2, hd]; rfl))
+  have hshape := (lst _ hi).2.2 d (by rw [e2]; exact hd)
+  rw [e2] at hv hshape
+  have hne' : ¬ C02.eh img "e_shstrndx" = Spec.SHN_UNDEF := hne
+  have hsh : C02.shstrtab img = some (C02.secFileBytes img (C02.eh img "e_shstrndx")) := by
+    unfold C02.shstrtab; rw [if_neg hne']
+  have := hnul _ hsh
+  rw [← hv] at this
+  rw [hshape]
+  rcases this with h0 | h0
+  · rw [h0]; rfl
+  · cases hvw : T.view with
+    | nil => rfl
+    | cons x rest => rw [hvw] at h0; simpa using h0
+
+/-- **prefix_sound_names** (C17, closes the "name of a zeroed section" gap) : for a well-formed image
+    whose section-name table starts with NUL, every prefix whose load succeeds names every section
+    with the empty string or with the name the complete file gives it — sections with the zeroed
+    header included (`C17.prefix_sound_zero_name`); for the others `C17.prefix_sound_section`
+    (same header fields, hence same name offset). -/
+theorem prefix_sound_names (o : Obj) (htr : o.trans = []) (img : Bytes) (k : Nat) (kind : StreamKind)
+    (isLazy : Bool) (hwf : C02.WellFormedImage img) (hnul : NameTableNul img) (rp : LoadRes)
+    (hp : load o { data := img.take k, kind := kind } isLazy = .ok rp) (hok : rp.ok = true) :
+    ∃ rf : LoadRes, load o { data := img, kind := kind } isLazy = .ok rf ∧ rf.ok = true ∧
+      rp.obj.secs.length = rf.obj.secs.length ∧
+      ∀ (i : Nat) (bp : SecBuf), rp.obj.secs[i]? = some bp → ∃ bf, rf.obj.secs[i]? = some bf ∧
+        (C17.SecZero bp → bp.name = []) ∧ (bp.name = [] ∨ bp.name = bf.name) := by
+  obtain ⟨rf, hf, hokf, hnf⟩ := nameTableNulFirst_of_image img o kind isLazy htr hwf hnul
+  have hlen : img.length < 9223372036854775808 := hwf.2.2.2.2.1
+  obtain ⟨hl, hsec⟩ := C17.prefix_sound_section o htr img k kind isLazy hlen rp rf hp hf hok
+  have hz := C17.prefix_sound_zero_name o htr img k kind isLazy hlen rp rf hp hf hok hnf
+  refine ⟨rf, hf, hokf, hl, ?_⟩
+  intro i bp hi
+  obtain ⟨bf, hbf, hzs, _, _, _, hnm⟩ := hsec i bp hi
+  refine ⟨bf, hbf, hz i bp hi, ?_⟩
+  rcases hzs with hzero | hsame
+  · exact Or.inl (hz i bp hi hzero)
+  · exact hnm hsame.nameOff
+
+/-- non-vacuity: `C17.img272` is well-formed and its name table starts with NUL; its prefix of length
+    250 loads, with a zeroed section next to the resident name table -/
+example : C02.WellFormedImage C17.img272 ∧ NameTableNul C17.img272 := by decide +kernel
 
 end ElfioVerif.Compose
